@@ -157,7 +157,7 @@ func init() {
 	register(&propDef{
 		ID: "C03", Engine: "csim", Pkg: "./engines/csim", Level: "exploration",
 		Runs:    map[string]int{"quick": 8000, "thorough": 600000},
-		MaxSec:  map[string]float64{"quick": 300, "thorough": 3000},
+		MaxSec:  map[string]float64{"quick": 900, "thorough": 3600},
 		Prepare: prepareCsimWith("asan"),
 		Rule:    "one run = (decoder, stream from an independent encoder or test/data, 80% with 1-3 stream faults: truncation, bit/byte flip, span deleted/duplicated, splice), delivered under a drawn schedule (source split policy down to 1 byte, late EOF, spurious empty deliveries, source compacted or not, destination grants down to 1 byte, partial drains, compaction with history retention, relocation, work buffer at min or max, object memory pre-filled with zeroes/0xFF/noise) on the ASan+UBSan build. distinct = distinct (stream bytes, stream description, schedule) hashes; non-trivial = at least 2 calls",
 		Real:    real, Stub: stub,
@@ -165,17 +165,35 @@ func init() {
 	})
 	register(&propDef{
 		ID: "C05", Engine: "csim", Pkg: "./engines/csim", Level: "exploration",
-		Runs:    map[string]int{"quick": 4000, "thorough": 200000},
-		MaxSec:  map[string]float64{"quick": 300, "thorough": 3000},
+		Runs:    map[string]int{"quick": 3200, "thorough": 200000},
+		MaxSec:  map[string]float64{"quick": 900, "thorough": 3600},
 		Prepare: prepareCsimWith("asan"),
 		Rule:    "one run = (decoder, stream; one third damaged). Reference: one driver loop that never withholds input, output space or work buffer. Then either every single split point of the source (streams up to 2 KiB: exhaustive over that axis for the sampled stream) or one drawn multi-split schedule (as C03). Oracle: identical output bytes and final status, identical consumed count unless the final status is an error. distinct = distinct (stream, schedule) hashes; non-trivial = at least 2 calls / stream of at least 2 bytes",
 		Real:    real, Stub: stub,
 		Assumptions: []string{"as C03"},
 	})
 	register(&propDef{
+		ID: "C08", Engine: "csim", Pkg: "./engines/csim", Level: "exploration",
+		Runs:    map[string]int{"quick": 20000, "thorough": 1000000},
+		MaxSec:  map[string]float64{"quick": 900, "thorough": 3600},
+		Prepare: prepareCsimWith("asan"),
+		Rule:    "one run = one call history of 3-11 steps on one decoder object whose memory starts raw (zeroes, 0xFF or noise, never initialised): initialize (ok, sizeof too small/too big, wrong version), transform_io with valid arguments over a valid or damaged stream delivered in drawn pieces, transform_io with a NULL source or NULL destination; re-initialisation at any point. Checked against an explicit life-cycle state machine (Raw, Ready, Suspended, Disabled, NoClaim) written from doc/note/statuses.md and initialization.md, which predicts exactly the statuses the property names, plus the buffer contract on every call. distinct = distinct (stream, history) hashes; non-trivial = at least 3 steps",
+		Real:    real, Stub: stub,
+		Assumptions: []string{"no prediction after a failed initialize or after a decode has finished (the property says nothing there)", "io_transformer decoders only: the image decoders' 'bad call sequence' clause and interleaved coroutines are not driven yet"},
+	})
+	register(&propDef{
+		ID: "C09", Engine: "csim", Pkg: "./engines/csim", Level: "exploration",
+		Runs:    map[string]int{"quick": 2500, "thorough": 150000},
+		MaxSec:  map[string]float64{"quick": 900, "thorough": 3600},
+		Prepare: prepareCsimWith("asan", "asan_nosimd", "plain", "plain_nosimd"),
+		Rule:    "one run = one (stream, delivery schedule) executed first on the base variant (ASan build with SIMD paths, zeroed memory, default initialize flags) and then on 3-5 drawn variants of the cross product {ASan, -O2} x {SIMD paths, WUFFS_CONFIG__AVOID_CPU_ARCH} x object memory pre-fill {zeroes, 0xFF, noise} x initialize flags {default, ALREADY_ZEROED on zeroed memory, LEAVE_INTERNAL_BUFFERS_UNINITIALIZED} x {fresh object, object memory that just held a decode of another stream} x destination-beyond-wi pre-fill; the portable twin of the base is always one of them. The schedule is drawn from a sub-tape seeded by one draw, so every variant sees the same decisions. Oracle: identical initialize status, final status, output bytes, consumed count and per-call record fingerprint",
+		Real:    real, Stub: stub,
+		Assumptions: []string{"this VM's CPU has SSE4.2, AVX2, BMI2 and PCLMUL, so the SIMD twins of deflate really run; ARM paths are not reachable here"},
+	})
+	register(&propDef{
 		ID: "C07", Engine: "csim", Pkg: "./engines/csim", Level: "exploration",
 		Runs:    map[string]int{"quick": 6000, "thorough": 300000},
-		MaxSec:  map[string]float64{"quick": 300, "thorough": 3000},
+		MaxSec:  map[string]float64{"quick": 900, "thorough": 3600},
 		Prepare: prepareCsimWith("asan", "plain"),
 		Rule:    "one run = (payload class x length up to 60 KB incl. > 32 KiB window, reference encoder and settings: Go flate/zlib/gzip levels incl. stored and Huffman-only with flush patterns, Go lzw, system bzip2 -1..-9, system xz --format=xz|lzma presets 0-6 and 4 integrity checks) decoded under a drawn delivery schedule on the ASan or the -O2 build; oracle: status ok and output == the original payload. The simulated dimension is the delivery schedule; payload x encoder setting is plain seeded generation",
 		Real:    real, Stub: stub,
